@@ -19,7 +19,15 @@ NASTY = [b"", b" ", b"a b", b"\n", b"x\ny", b'"q"', b"\xff", b"\x80\xfe", b"12",
 
 class Layouts:
     def __init__(self):
-        r = dbschema.extract()
+        import iglib
+        try:
+            r = dbschema.extract()
+        except Exception:
+            iglib.PINNED = True
+            try:
+                r = dbschema.extract()
+            finally:
+                iglib.PINNED = False
         self.cls = r["classes"]
         self.out = {k: self.cls[k].out for k in KINDS}
         self.inp = {k: self.cls[k].inp for k in KINDS}
@@ -60,7 +68,7 @@ def ident(rng, prefix=""):
 class DbGen:
     """Generates a closed (referentially consistent) database with arbitrary indices."""
 
-    def __init__(self, lay, rng, shared_names=None, nasty=0.3, max_per_kind=5, index_space=60, closed=True):
+    def __init__(self, lay, rng, shared_names=None, nasty=0.3, max_per_kind=5, index_space=60, closed=True, canonical=False):
         self.lay, self.rng, self.nasty = lay, rng, nasty
         self.shared = shared_names or []
         self.closed = closed
@@ -73,10 +81,18 @@ class DbGen:
         for k in KINDS:
             self.idx[k] = sorted(pool[p:p + n[k]])
             p += n[k]
+        if canonical:
+            # the numbering interrogate itself produces (remap_indices order): wrappers, functions, types, ...
+            nxt = 1
+            for k in ["wrapper", "function", "type", "manifest", "element", "makeSeq"]:
+                self.idx[k] = list(range(nxt, nxt + n[k]))
+                nxt += n[k]
 
-    def ref(self, kind, allow_zero=True):
+    def ref(self, kind, allow_zero=True, member=None):
         c = self.idx[kind]
-        if not self.closed and self.rng.random() < 0.15:
+        # read_new() dereferences a type's constructors/destructor while loading, so those stay valid
+        # even in a deliberately dangling database (a corrupt file is outside every property)
+        if not self.closed and member not in ("_constructors", "_destructor") and self.rng.random() < 0.15:
             return self.rng.randrange(-3, 90)
         if not c or (allow_zero and self.rng.random() < 0.3):
             return 0
@@ -110,7 +126,7 @@ class DbGen:
                 if name == "_flags":
                     rec[name] = self.flags(kind)
                 elif name in im:
-                    rec[name] = self.ref(im[name])
+                    rec[name] = self.ref(im[name], member=name)
                 elif name == "_atomic_token":
                     rec[name] = rng.randrange(0, 10)
                 elif name == "_int_value":
@@ -121,8 +137,8 @@ class DbGen:
                     rec[name] = rng.randrange(0, 100)
             elif k == "ints":
                 cnt = rng.choice([0, 0, 1, 2, 3, 5])
-                rec[name] = [self.ref(im[name], allow_zero=False) if name in im else rng.randrange(0, 9) for _ in range(cnt)]
-                if self.closed:
+                rec[name] = [self.ref(im[name], allow_zero=False, member=name) if name in im else rng.randrange(0, 9) for _ in range(cnt)]
+                if self.closed or name == "_constructors":
                     rec[name] = [x for x in rec[name] if x != 0]
             elif k == "recs":
                 cnt = rng.choice([0, 0, 1, 2, 3])
@@ -166,8 +182,17 @@ class DbGen:
                 ents.append((i, r))
             db[k] = ents
         if self.closed:
-            # the destructor/constructor flag fix-up of read_new dereferences these: keep them valid functions
-            pass
+            # what interrogate writes: a type's constructors/destructor carry F_constructor/F_destructor
+            # (read_new sets these flags on load, for files of older writers)
+            fen = self.lay.enums["function"]
+            fmap = dict(db["function"])
+            for _, t in db["type"]:
+                for c in t.get("_constructors", []):
+                    if c in fmap:
+                        fmap[c]["_flags"] |= fen["F_constructor"]
+                d = t.get("_destructor", 0)
+                if d in fmap:
+                    fmap[d]["_flags"] |= fen["F_destructor"]
         return db
 
 
